@@ -59,7 +59,7 @@ C11_BadPacketReleasesNothing == Step /\ E.act = "recv" /\ ~GoodPacket(E) =>
   ack' # "ok" /\ chan' = chan /\ held' = held /\ ubal' = ubal
 
 \* ------------------------------------------------------------------ C12
-C12_Identity == \A c \in Chan : \A d \in Denom : chan[c][d].out = ident[c][d]
+C12_Identity == ~legacy => \A c \in Chan : \A d \in Denom : chan[c][d].out = ident[c][d]
 C12_SuccessAckPaid == Step /\ E.act = "recv" /\ ack' = "ok" =>
   /\ GoodPacket(E)
   /\ LET c == E.args.ch  d == E.args.denom  a == E.args.amt IN
@@ -79,7 +79,7 @@ C12_OnePacket == Step /\ IsOk("transfer") =>
   /\ held' = [held EXCEPT ![d] = @ + a]
   /\ ubal' = [ubal EXCEPT ![E.by][d] = @ - a]
 C12_SentOnlyGrows == Step => \A c \in Chan : \A d \in Denom :
-  chan'[c][d].sent # chan[c][d].sent => IsOk("transfer") /\ E.args.ch = c /\ E.args.denom = d
+  chan'[c][d].sent # chan[c][d].sent => (IsOk("transfer") /\ E.args.ch = c /\ E.args.denom = d) \/ (legacy /\ IsOk("migrate"))
 C12_FailedCallNoChange == Step /\ ~Ok => chan' = chan /\ held' = held /\ ubal' = ubal /\ out' = <<>>
 \* an error acknowledgement or a timeout of one of our packets releases the escrow back to the sender
 \* (the books are reduced even if the refund sub-call fails, which only the faulty token can cause)
@@ -89,7 +89,17 @@ C12_FailureRefunds == Step /\ Ok /\ (E.act = "timeout" \/ (E.act = "ack" /\ ~E.a
   /\ \/ held' = [held EXCEPT ![d] = @ - a] /\ ubal' = [ubal EXCEPT ![s][d] = @ + a]
      \/ d = "tok" /\ tokFails /\ held' = held /\ ubal' = ubal
 C12_SuccessAckKeeps == Step /\ IsOk("ack") /\ E.args.success => chan' = chan /\ held' = held /\ ubal' = ubal /\ out' = <<>>
-C12_OthersKeepBooks == Step /\ E.act \notin {"transfer", "recv", "ack", "timeout"} => chan' = chan /\ held' = held /\ ubal' = ubal
+C12_OthersKeepBooks == Step /\ E.act \notin {"transfer", "recv", "ack", "timeout"} /\ ~(legacy /\ E.act = "migrate") =>
+  chan' = chan /\ held' = held /\ ubal' = ubal
+\* the old storage format credited a channel only on a success acknowledgement: packets in flight at the
+\* upgrade are escrowed but not in the books.  Migration brings the books up to the holdings (sent and
+\* outstanding grow by the same in-flight amount) and moves no money.
+C12_LegacyMigrateRebases == Step /\ legacy /\ IsOk("migrate") =>
+  /\ held' = held /\ ubal' = ubal
+  /\ \A d \in Denom : SumF(Chan, [c \in Chan |-> chan'[c][d].out]) = held[d]
+  /\ \A c \in Chan : \A d \in Denom :
+       /\ chan'[c][d].out >= chan[c][d].out
+       /\ chan'[c][d].sent - chan[c][d].sent = chan'[c][d].out - chan[c][d].out
 
 \* ------------------------------------------------------------------ C18
 C18_AllowMonotone == Step /\ ~legacy =>
